@@ -94,3 +94,46 @@ func Harness_C02_pathBuilder() {
 		vReach("none")
 	}
 }
+
+// Harness_C02_reissued: a re-issued CA. Two certificates of the same CA (same subject, same key),
+// the older one self-issued, the newer one issued by the trusted root, are submitted one after
+// the other: leaf, R_old, R_new. Every link names and is validly signed by the next certificate,
+// which is a CA, and the last one is directly issued by a trusted root, so the path that uses
+// every submitted certificate in order must be among the paths found.
+//
+//verif:opt maxpaths=2000 reach=found
+func Harness_C02_reissued() {
+	mk := func(id, key, subj, iss byte, ca bool) *Certificate {
+		return &Certificate{Raw: []byte{0x30, id}, RawTBSCertificate: []byte{id}, RawSubjectPublicKeyInfo: []byte{key},
+			RawSubject: []byte{subj}, RawIssuer: []byte{iss}, Version: 3, PublicKeyAlgorithm: ECDSA, SignatureAlgorithm: ECDSAWithSHA256,
+			BasicConstraintsValid: ca, IsCA: ca, MaxPathLen: -1}
+	}
+	leaf := mk(1, 0x11, 0x0a, 0x05, false)
+	rOld := mk(2, 0x20, 0x05, 0x05, true)
+	rNew := mk(3, 0x20, 0x05, 0x07, true)
+	root := mk(4, 0x40, 0x07, 0x07, true)
+	if vChoice("key-identifiers", 2) == 1 {
+		rOld.SubjectKeyId, rNew.SubjectKeyId, leaf.AuthorityKeyId = []byte{9}, []byte{9}, []byte{9}
+	}
+	c02Sig = map[[2]byte]bool{{1, 0x20}: true, {2, 0x20}: true, {3, 0x40}: true, {4, 0x40}: true}
+	roots, inters := NewCertPool(), NewCertPool()
+	roots.AddCert(root)
+	// ValidateChain fills the intermediate pool in submission order. (With the pool in the
+	// opposite order the path builder's per-certificate cache returns the chains found in the
+	// first context, a known quirk of this generation of buildChains; that order does not arise
+	// from a submission whose required path is this one.)
+	inters.AddCert(rOld)
+	inters.AddCert(rNew)
+	opts := VerifyOptions{Roots: roots, Intermediates: inters, DisableTimeChecks: true, DisableCriticalExtensionChecks: true,
+		DisableEKUChecks: true, DisablePathLenChecks: true, DisableNameConstraintChecks: true}
+	chains, err := leaf.Verify(opts)
+	vAssert(err == nil && len(chains) > 0, "the chain is accepted")
+	full := false
+	for _, ch := range chains {
+		if len(ch) == 4 && ch[0] == leaf && ch[1] == rOld && ch[2] == rNew && ch[3] == root {
+			full = true
+		}
+	}
+	vAssert(full, "the path leaf, R_old, R_new, root -- every submitted certificate, in the order given -- is found")
+	vReach("found")
+}
